@@ -225,37 +225,41 @@ type dir struct {
 	pb       *pb.Directory
 	children map[digest.Digest]*pb.Directory
 	*info
+	// entries are the directory's entries, listed on the first ReadDir; offset counts the ones already returned
+	entries []iofs.DirEntry
+	offset  int
 }
 
 // ReadDir implements listing the contents of a directory stored in the CAS. This is entirely based off the original
-// data from the Tree proto so doesn't do any additional fetching.
+// data from the Tree proto so doesn't do any additional fetching. Successive calls continue where the previous one
+// stopped, as io/fs.ReadDirFile requires.
 func (p *dir) ReadDir(n int) ([]iofs.DirEntry, error) {
-	dirSize := n
+	if p.entries == nil {
+		p.entries = make([]iofs.DirEntry, 0, len(p.pb.Directories)+len(p.pb.Files)+len(p.pb.Symlinks))
+		for _, dirNode := range p.pb.Directories {
+			dir := p.children[digest.NewFromProtoUnvalidated(dirNode.Digest)]
+			p.entries = append(p.entries, newDirInfo(dirNode.Name, dir))
+		}
+		for _, file := range p.pb.Files {
+			p.entries = append(p.entries, newFileInfo(file))
+		}
+		for _, link := range p.pb.Symlinks {
+			p.entries = append(p.entries, newSymlinkInfo(link))
+		}
+	}
+	rest := p.entries[p.offset:]
 	if n <= 0 {
-		dirSize = len(p.pb.Files) + len(p.pb.Symlinks) + len(p.pb.Files)
+		p.offset = len(p.entries)
+		return rest, nil
 	}
-	ret := make([]iofs.DirEntry, 0, dirSize)
-	for _, dirNode := range p.pb.Directories {
-		if n > 0 && len(ret) == n {
-			return ret, nil
-		}
-		dir := p.children[digest.NewFromProtoUnvalidated(dirNode.Digest)]
-		ret = append(ret, newDirInfo(dirNode.Name, dir))
+	if len(rest) == 0 {
+		return nil, io.EOF
 	}
-	for _, file := range p.pb.Files {
-		if n > 0 && len(ret) == n {
-			return ret, nil
-		}
-
-		ret = append(ret, newFileInfo(file))
+	if n > len(rest) {
+		n = len(rest)
 	}
-	for _, link := range p.pb.Symlinks {
-		if n > 0 && len(ret) == n {
-			return ret, nil
-		}
-		ret = append(ret, newSymlinkInfo(link))
-	}
-	return ret, nil
+	p.offset += n
+	return rest[:n:n], nil
 }
 
 func (p *dir) Stat() (iofs.FileInfo, error) {
